@@ -1,6 +1,8 @@
 """C08 – packets reach exactly their addressee via best routes, and forwarding ends."""
 from __future__ import annotations
 
+import copy
+
 from vlib.chdriver import all_of, any_of, assume, check, cover, fail, pick, pick_int, rng
 from vlib.fixtures import CallLog, concrete, mk_host, mk_node, new_sim, quiet
 
@@ -454,6 +456,87 @@ def reach_asymmetric(from_a: bool, n_warm: int, which_down: int):
     check(bool(ok) == up, lambda: f"ping {'a->b' if from_a else 'b->a'} with link {down} down, {nw} warm-up rounds: result {ok}, every device on both (asymmetric) paths {'is' if up else 'is not'} up")
 
 
+FW_HOSTS = ["client_1", "client_2", "server_1", "dmz_1"]
+FW_IPS = {"client_1": "192.168.1.2", "client_2": "192.168.1.3", "server_1": "192.168.2.10", "dmz_1": "192.168.3.10"}
+FW_ZONE = {"client_1": "EXT", "client_2": "EXT", "server_1": "INT", "dmz_1": "DMZ"}
+FW_LEAVE = {"EXT": "external_inbound_acl", "INT": "internal_outbound_acl", "DMZ": "dmz_outbound_acl"}  # list consulted when a frame arrives from the zone
+FW_ENTER = {"EXT": "external_outbound_acl", "INT": "internal_inbound_acl", "DMZ": "dmz_inbound_acl"}  # list consulted before it is sent into the zone
+FW_TOGGLES = ["none", "ext_port_down", "int_port_down", "dmz_port_down", "fw_off", "src_nic_off", "dst_off"] + ["deny_icmp:" + l for l in sorted(set(FW_LEAVE.values()) | set(FW_ENTER.values()))]
+
+
+def reach_firewall(src: int, dst: int, tog: int, warm: bool):
+    """Firewall with DMZ built by the real scenario loader: ping between every ordered pair of the four hosts (two on the
+    external LAN, one internal, one in the DMZ) under a solver-chosen toggle agrees with an independent model - a pair
+    in different zones needs the firewall ON, both zone ports up and ICMP permitted by the list of the zone the frame
+    leaves and the list of the zone it enters, in both directions - and is never handed to a third host's software."""
+    from primaite.game.game import PrimaiteGame
+    from primaite.simulator.network.hardware.nodes.network.router import ACLAction
+    from vlib.fixtures import mini_scenario
+
+    assume(all_of(rng(src, 0, 3), rng(dst, 0, 3), rng(tog, 0, len(FW_TOGGLES) - 1)))
+    s, d = pick(FW_HOSTS, src), pick(FW_HOSTS, dst)
+    assume(s != d)
+    t = pick(FW_TOGGLES, tog)
+    with concrete():
+        quiet()
+        game = PrimaiteGame.from_config(copy.deepcopy(mini_scenario("firewalled", with_green=False, with_red=False)))
+        net = game.simulation.network
+        hosts = {n: net.get_node_by_hostname(n) for n in FW_HOSTS}
+        fw = net.get_node_by_hostname("firewall_1")
+        if warm:
+            for x in FW_HOSTS:
+                for y in FW_HOSTS:
+                    if x != y:
+                        hosts[x].ping(FW_IPS[y], pings=1)
+        port_of = {"EXT": fw.external_port, "INT": fw.internal_port, "DMZ": fw.dmz_port}
+        if t == "ext_port_down":
+            fw.external_port.disable()
+        elif t == "int_port_down":
+            fw.internal_port.disable()
+        elif t == "dmz_port_down":
+            fw.dmz_port.disable()
+        elif t == "fw_off":
+            fw.config.shut_down_duration = 0
+            fw.power_off()
+        elif t == "src_nic_off":
+            hosts[s].network_interface[1].disable()
+        elif t == "dst_off":
+            hosts[d].config.shut_down_duration = 0
+            hosts[d].power_off()
+        elif t.startswith("deny_icmp:"):
+            getattr(fw, t.split(":")[1]).add_rule(action=ACLAction.DENY, protocol="icmp", position=0)
+        got_payload = {n: 0 for n in FW_HOSTS}
+        for n in FW_HOSTS:
+            h = hosts[n]
+            orig = h.software_manager.receive_payload_from_session_manager
+
+            def w(*a, n=n, orig=orig, **k):
+                got_payload[n] += 1
+                return orig(*a, **k)
+
+            object.__setattr__(h.software_manager, "receive_payload_from_session_manager", w)
+        zs, zd = FW_ZONE[s], FW_ZONE[d]
+        up = t not in ("src_nic_off", "dst_off")
+        if zs != zd:
+            if t == "fw_off":
+                up = False
+            if t.endswith("_port_down") and t.split("_")[0].upper() in (zs, zd):
+                up = False
+            if t.startswith("deny_icmp:") and t.split(":")[1] in (FW_LEAVE[zs], FW_ENTER[zd], FW_LEAVE[zd], FW_ENTER[zs]):
+                up = False
+        ok = False
+        try:
+            for _ in range(3):
+                ok = hosts[s].ping(FW_IPS[d], pings=1) or ok
+        except Exception as e:
+            fail(f"ping {s}->{d} under {t} raised {type(e).__name__}: {e}")
+    cover("fw_up" if up else "fw_down")
+    check(bool(ok) == up, lambda: f"ping {s}->{d} under toggle {t} ({'warm' if warm else 'cold'} ARP) through the firewall: result {ok}, reachability model says {up}")
+    for third in FW_HOSTS:
+        if third not in (s, d):
+            check(got_payload[third] == 0, lambda: f"unicast exchange {s}->{d} was handed to software on {third}")
+
+
 def _two_router_lan():
     """One LAN (192.168.1.0/24, a switch) with TWO routers on it: r1 is the hosts' default gateway and routes the remote
     subnet 192.168.2.0/24 via r2 (192.168.1.254), which is attached to it directly. Replies from the remote subnet come
@@ -620,6 +703,13 @@ HARNESSES = {
         "thorough": [{"fixed": {}, "timeout": 600}],
         "cover": ["asym_up", "asym_down"],
         "bounds": "3 routers in a triangle with asymmetric static routes, both directions, 0-2 warm-up rounds (ARP/transit caches cold or warm), each transit link down or none",
+    },
+    "reach_firewall": {
+        "fn": reach_firewall,
+        "quick": [{"fixed": {"warm": w}, "timeout": 280} for w in (False, True)],
+        "thorough": [{"fixed": {"warm": w, "src": s0}, "timeout": 900} for w in (False, True) for s0 in range(4)],
+        "cover": ["fw_up", "fw_down"],
+        "bounds": "generated firewall-with-DMZ scenario (2 external hosts on a switch, 1 internal, 1 DMZ), all 12 ordered pairs, 13 toggles (each zone port down, firewall off, source interface off, destination off, ICMP denied in each of the six lists), cold/warm ARP",
     },
     "gateway_lan": {
         "fn": gateway_lan,
